@@ -202,7 +202,7 @@ def register(PROPS, COMPONENTS):
                    "enabled (C16_outside_lock, C16_user_code_unlocked, C16_no_self_deadlock, C16_holder_enabled, "
                    "C16_reentrant_enabled, C16_acquire_enabled); callbacks of one call run over its ecall vector front to back once "
                    "each and every object still to be destroyed by a non-throwing call had its callback exactly once, before any of "
-                   "them is destroyed (C16_callback_once, C16_callback_order, C16_callback_before_destruction); with multiplicity "
+                   "them is destroyed (C16_callback_once, C16_callback_once_dying, C16_callback_order, C16_callback_before_destruction); with multiplicity "
                    "every push_back is in the vector, was reaped by a selection, or released by the vector's destructor, selections "
                    "take only objects whose use_count is 1, and returned sizes are the vector's length at a critical section of the "
                    "call or the sentinel exactly on a first-attempt time-out (C16_accounting, C16_reap_only_unowned, C16_size_value, "
@@ -212,8 +212,7 @@ def register(PROPS, COMPONENTS):
                    "(the exact program), except that the scan of destroyObjects may skip selectable objects (`skip` parameter).",
         trusted_base=DD_TRUST, assumptions=DD_ASSUME,
         partial=["C16_callback_once is stated per destroyObjects call (per reap): an object whose callback re-adds it is reaped "
-                 "again later and gets one callback per reap; the statement for the object being destroyed at this moment is the "
-                 "one for the ecall vector just before its release",
+                 "again later and gets one callback per reap",
                  "the size recorded under the lock (`sz`) is carried in the call's frames; that it is unchanged from the first "
                  "critical section to the return is visible in the step function but not stated as a separate history theorem",
                  "deadlock-freedom of re-entrant calls is proved as enabledness facts (no self-hold, holder can release, "
